@@ -43,7 +43,14 @@ type replay struct {
 // can stand in for (or against) this case's endpoints.
 var caseTag = "c0"
 
-func urlOf(i int) string { return fmt.Sprintf("p%d-%s.com/v1/x", i, caseTag) }
+func urlOf(i int) string {
+	if i == star {
+		return "*" // an endpoint on every URL: the proxy is told to manage all traffic
+	}
+	return fmt.Sprintf("p%d-%s.com/v1/x", i, caseTag)
+}
+
+const star = 5
 
 func policies(set []int) *config.PoliciesData {
 	c := &sharedConfig.PoliciesConfig{}
@@ -77,6 +84,9 @@ func main() {
 				if r.Chance(3, 5) {
 					s = append(s, e)
 				}
+			}
+			if r.Chance(1, 5) {
+				s = append(s, star)
 			}
 			if len(s) == 0 {
 				s = []int{r.Intn(5)}
@@ -174,6 +184,9 @@ func runCase(v *sim.Verdict, ha *sim.FakeHAProxy, rp replay) {
 			}
 		}
 		for _, e := range cur {
+			if e == star {
+				continue // nothing individual to register for it
+			}
 			ok := false
 			for _, re := range res {
 				if re.MatchString("GET:::" + urlOf(e)) {
